@@ -1059,6 +1059,27 @@ func (c *Ctx) RequireAllParamsInEveryResult(rule, name string) {
 	}
 }
 
+// loopLeavesOnlyAtHeader: the innermost loop around in is left only from its header
+// (range exhausted / loop condition false) — no break, return or goto from inside.
+// found is false when in is not in a loop.
+func loopLeavesOnlyAtHeader(fn *ssa.Function, in ssa.Instruction) (found, ok bool, at ssa.Instruction) {
+	lp := innermostLoop(fn, in.Block())
+	if lp == nil {
+		return false, false, nil
+	}
+	for _, b := range fn.Blocks { // deterministic order
+		if !lp.Blocks[b] || b == lp.Header {
+			continue
+		}
+		for _, s := range b.Succs {
+			if !lp.Blocks[s] {
+				return true, false, b.Instrs[len(b.Instrs)-1]
+			}
+		}
+	}
+	return true, true, nil
+}
+
 func walkStores(addr ssa.Value, walk func(ssa.Value)) {
 	if refs := addr.Referrers(); refs != nil {
 		for _, r := range *refs {
